@@ -18,10 +18,16 @@ TRUSTED = [
     "expression every load / save / merge / delete site uses; bridged in Bridge/BridgeNames.v",
     "xarray merge / combine_first / outer join of coordinates / dtype promotion, h5netcdf and joblib round trips are "
     "library behaviour: modelled as point-map operations and validated by the correspondence only",
+    "translator gen_harvest.py: the stage order of add_ds (load, combine, store), what overwrite dispatches to "
+    "(receiver / argument of combine_first, merge no_conflicts; xr.merge's default compat is taken to be "
+    "'no_conflicts'), where save_full_ds updates memory relative to the atomic write and whether its except "
+    "branch re-raises, the load rule, save_merge_ds's dispatch; bridged in Bridge/BridgeHarvest.v and interpreted "
+    "by Model/HarvestFlow.v (the correspondence runs the REGENERATED flows)",
+    "file-write failures are injected by replacing farming.save_ds / farming.os.replace inside the harness process",
     "expand_dims is exercised by the oracle only (it changes the dimensionality of every point)",
 ]
 RULE = ("random sequences (1..8 steps) of harvest_combos / harvest_cases / add_ds / save_merge_ds / drop_sel / "
-        "expand_dims over overlapping and disjoint coordinate sets, the three overwrite policies, sync on/off, engines "
+        "expand_dims / add_ds whose file write fails (before or after the temporary file exists) over overlapping and disjoint coordinate sets, the three overwrite policies, sync on/off, engines "
         "h5netcdf and joblib, data names with and without extension, new Harvester objects at random steps and a second "
         "long-lived Harvester on the same name (stale memory); distinct = distinct sequences; non-trivial = at least "
         "two data-changing steps touching overlapping coordinates")
@@ -91,11 +97,59 @@ def gen_ops(rng, n):
         elif r < 0.77:
             a = sorted(rng.sample(range(1, 5), rng.randint(1, 2)))
             ops.append(("save_merge", a, [5, 7], rng.choice([0, 1]), rng.choice([None, True, False])))
-        elif r < 0.87:
+        elif r < 0.84:
             ops.append(("new_session", who))
+        elif r < 0.90:
+            a = sorted(rng.sample(range(1, 5), rng.randint(1, 2)))
+            # a synced add_ds of harvester 0 whose file write fails: before the temporary file exists
+            # (save_ds raises) or after it (os.replace raises)
+            ops.append(("add_fail", 0, a, [5, 6], rng.choice([0, 1]), rng.choice([None, True, False]),
+                        rng.choice([False, True])))
         else:
             ops.append(("drop", who, rng.randint(1, 4)))
     return ops
+
+
+class failing_write:
+    """Make the harvester's file write fail: in save_ds (no temporary file yet) or in os.replace."""
+
+    def __init__(self, tmp_exists):
+        self.tmp_exists = tmp_exists
+
+    def __enter__(self):
+        import xyzpy.gen.farming as F
+        self.F = F
+        self.save_ds, self.os = F.save_ds, F.os
+        if self.tmp_exists:
+            real_os = F.os
+
+            class OsProxy:
+                def __getattr__(self, k):
+                    return getattr(real_os, k)
+
+                @staticmethod
+                def replace(a, b):
+                    raise OSError(28, "No space left on device (injected)")
+
+                @staticmethod
+                def rename(a, b):
+                    raise OSError(28, "No space left on device (injected)")
+            F.os = OsProxy()
+        else:
+            def bad_save(*a, **k):
+                raise OSError(2, "No such file or directory (injected before anything is written)")
+            F.save_ds = bad_save
+
+    def __exit__(self, *exc):
+        self.F.save_ds, self.F.os = self.save_ds, self.os
+        return False
+
+
+def pol_conflict(old, new, pol):
+    if pol is not None or not old:
+        return False
+    o = dict((tuple(k), v) for k, v in old)
+    return any(tuple(k) in o and o[tuple(k)] != v for k, v in new)
 
 
 def run_sequence(c, tmp, rng, idx):
@@ -141,13 +195,13 @@ def run_sequence(c, tmp, rng, idx):
                 continue
             op = ("drop", op[1], rng.choice(labels))
         new = None
-        if kind in ("combos", "add_ds"):
+        if kind in ("combos", "add_ds", "add_fail"):
             new = new_points(op[2], op[3], op[4])
         elif kind == "cases":
             new = new_points(None, None, op[3], op[2])
         elif kind == "save_merge":
             new = new_points(op[1], op[2], op[3])
-        mem_before = canon_ds(hs[op[1]]._full_ds) if kind in ("combos", "cases", "add_ds") else None
+        mem_before = canon_ds(hs[op[1]]._full_ds) if kind in ("combos", "cases", "add_ds", "add_fail") else None
         try:
             if kind == "combos":
                 _, who, a, b, v, pol, sync = op
@@ -165,6 +219,11 @@ def run_sequence(c, tmp, rng, idx):
                 _, a, b, v, pol = op
                 ds = runner(v).run_combos({"a": a, "b": b}, verbosity=0)
                 xyzpy.save_merge_ds(ds, path, overwrite=pol, engine=engine)
+            elif kind == "add_fail":
+                _, who, a, b, v, pol, tmp_exists = op
+                ds = runner(v).run_combos({"a": a, "b": b}, verbosity=0)
+                with failing_write(tmp_exists):
+                    hs[who].add_ds(ds, overwrite=pol, sync=True)
             elif kind == "new_session":
                 hs[op[1]] = xyzpy.Harvester(runner(0), data_name=path, engine=engine)
             elif kind == "drop":
@@ -173,7 +232,9 @@ def run_sequence(c, tmp, rng, idx):
             raised = True
             err = f"{type(e).__name__}: {str(e)[:120]}"
         # ---- model op from the point of view of harvester 0
-        if kind in ("combos", "cases", "add_ds"):
+        if kind == "add_fail":
+            model_ops.append(f"FWFail {coq_pmap(new)} {POL[op[5]][0]} {'true' if op[6] else 'false'}")
+        elif kind in ("combos", "cases", "add_ds"):
             who, pol, sync = op[1], op[-2], op[-1]
             if who == 0:
                 model_ops.append(f"HAdd {coq_pmap(new)} {'true' if sync else 'false'} {POL[pol][0]}")
@@ -212,6 +273,17 @@ def run_sequence(c, tmp, rng, idx):
                                     f"file holds {fil}, the policy merge of everything harvested is {want}", rep)
                     elif who is not None and canon_ds(hs[who]._full_ds) != fil:
                         c.violation("memory-differs-from-disk", "full_ds in memory differs from the file after a synced harvest", rep)
+        elif kind == "add_fail":
+            held = before_file if before_file is not None else mem_before
+            conflict = pol_conflict(held, new, op[5])
+            if not raised:
+                c.violation("write-failure-swallowed", "the file write of a synced harvest failed but add_ds returned "
+                            "normally (the caller, e.g. a reaping crop, goes on as if the data were saved)", rep)
+            elif fil != before_file:
+                c.violation("write-failure-changed-disk", "a harvest whose write failed changed the file", rep)
+            elif mem0 != held and not conflict:
+                c.violation("memory-differs-from-disk-after-failed-write",
+                            f"full_ds in memory holds {mem0} after a failed write, the file holds {before_file}", rep)
         elif kind == "drop" and not raised:
             want = [kv for kv in (before_file or []) if not (kv[0][1] == DA and kv[0][2] == op[2])]
             if fil != want:
@@ -219,8 +291,8 @@ def run_sequence(c, tmp, rng, idx):
         elif kind == "new_session" and fil != before_file:
             c.violation("new-session-changed-disk", "constructing a Harvester changed the file", rep)
     shutil.rmtree(d, ignore_errors=True)
-    mops = [m for m in model_ops if m is not None]
-    model = (f'run_harvest gen_sites "{path}" {ENG[engine]} [' + "; ".join(mops) + "]")
+    mops = [m if m.startswith("FWFail") else f"FOp ({m})" for m in model_ops if m is not None]
+    model = (f'run_harvest_flow gen_flows gen_sites "{path}" {ENG[engine]} [' + "; ".join(mops) + "]")
     return rep, ops, model, obs
 
 
@@ -251,10 +323,11 @@ def run(tier, seed):
     c = core.Check("C05", tier, seed)
     gen_st = core.regen()
     b = core.build(PROP_FILE)
-    c.cov["translator"] = {k: v for k, v in gen_st.items() if k in ("GenNames",)}
+    c.cov["translator"] = {k: v for k, v in gen_st.items() if k in ("GenNames", "GenHarvest")}
     c.cov["build"] = {"ok": b["ok"], "failed_file": b["failed_file"], "wall_s": round(b.get("wall_s", 0), 1)}
-    if "GenNames" in gen_st and not gen_st["GenNames"]["ok"]:
-        c.obligation_broken("translator GenNames", gen_st["GenNames"]["detail"])
+    for u in ("GenNames", "GenHarvest"):
+        if u in gen_st and not gen_st[u]["ok"]:
+            c.obligation_broken(f"translator {u}", gen_st[u]["detail"])
     if not b["ok"]:
         c.obligation_broken(f"Coq build of {b['failed_file']}", b["log_tail"][-1200:])
     n = 120 if tier == "quick" else 1000
@@ -273,7 +346,7 @@ def run(tier, seed):
             c.count("engine", rep["engine"]); c.count("name", rep["name"]); c.count("len", len(ops))
             pairs.append((model, obs))
             metas.append(rep)
-        bad, _ = core.safe_run_cases(c, "Prelude Grid Names Harvest HarvestInst GenNames", pairs, chunk=60)
+        bad, _ = core.safe_run_cases(c, "Prelude Grid Names Harvest HarvestFlow HarvestInst GenNames GenHarvest", pairs, chunk=60)
         for i in bad:
             c.obligation_broken("correspondence Model/Harvest.v vs Harvester / save_merge_ds",
                                 {"case": metas[i], "model_expr": pairs[i][0][:2500], "observed": pairs[i][1]})
